@@ -78,11 +78,14 @@ class Scheduler:
 class SimLock:
     """Replacement for engine._lock: a blocked acquirer hands the baton to the owner."""
 
-    def __init__(self, sched: Scheduler, names: dict[int, str]):
+    def __init__(self, sched: Scheduler, names: dict[int, str], handoff: list[bool] | None = None):
         self.sched = sched
         self.names = names
         self.owner: str | None = None
         self.contended = 0
+        self.waiters: set[str] = set()
+        self.handoff = list(handoff or [])    # per contended release: does the blocked waiter get the lock at once?
+        self.handoffs_done = 0
 
     def acquire(self, blocking=True, timeout=-1):
         me = self.names.get(threading.get_ident(), "main")
@@ -90,12 +93,22 @@ class SimLock:
             self.contended += 1
             if me == "main":
                 raise HarnessError("lock held outside the scheduled section")
+            self.waiters.add(me)
             self.sched.yield_to_other(me)
+        self.waiters.discard(me)
         self.owner = me
         return True
 
     def release(self):
+        me = self.owner
         self.owner = None
+        # a thread blocked on the lock is woken by the release: whether it wins the lock before the releasing thread
+        # goes on is a scheduling decision of the plan (real locks are not fair, both outcomes happen)
+        if self.waiters and me is not None and me != "main":
+            take = self.handoff.pop(0) if self.handoff else True
+            if take:
+                self.handoffs_done += 1
+                self.sched.yield_to_other(me)
 
     def __enter__(self):
         self.acquire()
@@ -155,8 +168,9 @@ class SimT(Simulator):
             switches = {"T": [rng.random()], "R": [rng.random()]}     # R split around a piece of the tick
         else:
             switches = {"T": sorted([rng.random(), rng.random()]), "R": [rng.random()]}
+        handoff = [rng.random() < 0.75 for _ in range(4)]
         return {"cfg": {"wellformed": True, "runlog_every": 1000}, "method": method, "prefix": prefix, "request": req,
-                "switch_fractions": switches, "ops": []}
+                "switch_fractions": switches, "handoff": handoff, "ops": []}
 
     def shrink(self, plan: dict) -> Iterator[dict]:
         m = plan["method"]
@@ -253,6 +267,7 @@ class SimT(Simulator):
         res.probe("traced_lines_request", n_r)
         res.probe("baton_switches", out["switches"])
         res.probe("lock_contended", out["contended"])
+        res.probe("lock_handoffs_to_waiter", out["handoffs"])
         rec.log("switch_points", sp, n_t, n_r, out["switches"])
         rec.log("got", stable_hash(got), "RT", stable_hash(serial["RT"]), "TR", stable_hash(serial["TR"]))
         kind = plan["request"][0] + (":" + str(plan["request"][1]) if plan["request"][0] in ("edit", "user") else "")
@@ -293,7 +308,7 @@ class SimT(Simulator):
     def _interleaved(self, w: EngineWorld, plan, sp, res, first="T") -> dict:
         sched = Scheduler(sp)
         names: dict[int, str] = {}
-        lock = SimLock(sched, names)
+        lock = SimLock(sched, names, plan.get("handoff"))
         w.engine._lock = lock
         root = os.path.join(repo_root(), "openpectus") + os.sep
         files = tuple(root + f for f in TRACE_FILES)
@@ -343,5 +358,6 @@ class SimT(Simulator):
             out["errors"].append(f"{e[1]}: {e[2]}")
         out["switches"] = sched.switches
         out["contended"] = lock.contended
+        out["handoffs"] = lock.handoffs_done
         out["count"] = dict(sched.count)
         return out
